@@ -107,6 +107,14 @@ def _check_zc(case):
 
 
 def _check_zc_long(case):
+    old = os.getcwd()
+    try:
+        return _check_zc_long_in(case)
+    finally:
+        os.chdir(old)
+
+
+def _check_zc_long_in(case):
     """the size axis (search windows of 65 .. 257 samples on recordings of 67 .. 300 samples) and the file-backed QueryWav: many look-ups
     through ONE wav object, each result a genuine crossing"""
     n, shape, k, stepS, backend = case
@@ -119,10 +127,25 @@ def _check_zc_long(case):
         samples = tuple(5 if (i < k or i >= k + 40) else -5 for i in range(n))
     if backend == "Wav":
         w = mkwav(samples, width, rate)
-    else:
+    elif backend == "QueryWav":
         fn = os.path.join(scratch_dir(), "c18-long.wav")
         W.write_riff(fn, list(samples), width, rate)
         w = audio.QueryWav(fn)
+    else:
+        # built from a relative name; by the time it is queried the caller works in another directory holding another recording of that name
+        here = scratch_dir()
+        other = os.path.join(here, "next session")
+        os.makedirs(other, exist_ok=True)
+        W.write_riff(os.path.join(here, "c18-rel.wav"), list(samples), width, rate)
+        W.write_riff(os.path.join(other, "c18-rel.wav"), [5 if i % 2 else -5 for i in range(n)], width, rate)   # crossings everywhere
+        old_cwd = os.getcwd()
+        os.chdir(here)
+        try:
+            w = audio.QueryWav("c18-rel.wav")
+            os.chdir(other)
+        except Exception:
+            os.chdir(old_cwd)
+            raise
     step = stepS / rate
     dur = n / rate
     viols = []
@@ -151,11 +174,13 @@ def _check_zc_long(case):
             w.audiofile.close()
         except Exception:
             pass
+    if backend == "QueryWav-built-elsewhere":
+        os.chdir(old_cwd)
     return cnt, "ok", (n, shape, stepS, backend), viols
 
 
 def _zc_long_cases(quick):
-    for backend in ("Wav", "QueryWav"):
+    for backend in ("Wav", "QueryWav", "QueryWav-built-elsewhere"):
         for n in ((67, 200) if quick else (67, 100, 200, 300)):
             for shape in ("step", "zero", "two"):
                 for k in sorted(set((1, 2, n // 3, n // 2, n - 66 if n > 66 else 1, n - 2))):
